@@ -105,6 +105,35 @@ def _match_d53(stream, line, impl, model):
     return any_node(v, pred)
 
 
+def ref_write(f, d, q, e):
+    out = bytearray([q])
+    for c in f:
+        if c == q:
+            out += bytes([e, q])
+        elif c == e:
+            out += bytes([e, e])
+        else:
+            out.append(c)
+    out.append(q)
+    return bytes(out)
+
+
+def compare_enc(line, io, mo):
+    if mo == "skip":
+        return True
+    if not io.startswith("ok") or not mo.startswith("ok"):
+        return io.startswith("err") == mo.startswith("err")
+    return io[3:].split(" | ")[0].strip() == mo[3:].strip()
+
+
+def compare_dec(line, io, mo):
+    if mo == "eof-in-quotes":
+        return True          # the real parser drops the unterminated field or reports a conversion error: not modelled
+    if io.startswith("err") or mo.startswith("err"):
+        return io.startswith("err") and mo.startswith("err")
+    return io.strip() == mo.strip()
+
+
 def nontrivial(line, impl):
     return line if len(line) > 60 else None
 
@@ -118,6 +147,28 @@ def streams(ctx, rng, scale):
         shape, opts, table = tables.gen_csv_case(rng)
         lc.append("csv rt %s %s | %s" % (shape, opts, wire.render(table)))
     ctx.correspond("csv-tables", HARNESS, lc, csv_oracle, nontrivial, want_model=False)
+    # the Lean field/row model against the real encoder: array-of-arrays tables of strings
+    enc_lines = [l for l in lc if l.startswith("csv rt a") and all(isinstance(x, bytes) for r in wire.parse_all(l.split(" | ")[1])[0] for x in r)]
+    ctx.correspond("csv-encoder-model", HARNESS, enc_lines, None, nontrivial, compare=compare_enc,
+                   model_lines=["csvm enc " + l[len("csv rt a "):] for l in enc_lines])
+    # … and against the real parser: arbitrary texts over the characters that matter
+    dec_lines = []
+    for _ in range(4000 * scale):
+        d = rng.choice([44, 59, 9, 124])
+        q = rng.choice([34, 39])
+        e = q if rng.random() < 0.6 else 92
+        alphabet = [b"a", b"b", b"c", bytes([q]), bytes([q]), bytes([d]), bytes([d]), b"\n", b"\r", b"\r\n", bytes([e])]
+        text = b"".join(rng.choice(alphabet) for _ in range(rng.randint(1, 14)))
+        if rng.random() < 0.5:
+            # mostly well-formed: fields written by the reference writer, then mutated a little
+            fields = [b"".join(rng.choice(alphabet) for _ in range(rng.randint(0, 4))) for _ in range(rng.randint(1, 4))]
+            text = bytes([d]).join(ref_write(f, d, q, e) for f in fields) + rng.choice([b"", b"\n", b"\r\n"])
+            if rng.random() < 0.3 and text:
+                i = rng.randrange(len(text))
+                text = text[:i] + rng.choice(alphabet) + text[i + 1:]
+        dec_lines.append("csv dec d%d q%d e%d | %s" % (d, q, e, text.hex()))
+    ctx.correspond("csv-parser-model", HARNESS, dec_lines, None, lambda l, i: l if i.startswith("ok") and len(l) > 40 else None, compare=compare_dec,
+                   model_lines=["csvm" + l[3:] for l in dec_lines])
     lt = []
     for _ in range(3000 * scale):
         v = tables.gen_toon_value(rng, 3)
